@@ -67,7 +67,9 @@ P('C02', claimed=True, needs_driver=True, level='other',
               'coordinates; the file header (SCgf, version 2, definition count); the unit table (_add_ugen: index '
               '= position appended at, ignored during a rewrite; _remove_ugen: exactly the own slot cleared; '
               '_index_ugens: unit at position i gets index i; _add_constant: next free slot for a new value, '
-              'nothing for a known one; lemma: distinct slots); the per-unit steps of the topological sort '
+              'nothing for a known one; lemma: distinct slots; _replace_ugen: b takes a\'s slot, index, readers and '
+              'ordering constraints, and in every unit\'s inputs every occurrence of a becomes b - array-store '
+              'model with a quantified inner-loop invariant); the per-unit steps of the topological sort '
               '(_init_topo_sort: both edges per unit input, through the source unit for proxies, and per '
               'width-first antecedent; _make_available iff no antecedent left; _remove_antecedent; _arrange: every '
               'descendant released once, THEN self appended) and its driver loop (one pop and one arrange per '
